@@ -35,6 +35,8 @@ const N_GROUPS: u8 = 3;
 const N_LABELS: u8 = 2;
 const N_ETYPES: u8 = 2;
 const N_EMB: u8 = 5;
+/// whether `generate` draws cases with `QueryRouter::init_cache` (see `generate`)
+const GENERATE_QUERY_CACHE: bool = true;
 
 #[derive(Serialize, Deserialize, Clone, Debug, PartialEq)]
 pub enum Step {
@@ -44,6 +46,10 @@ pub enum Step {
     CreateIndex { t: u8, col: u8 },
     DropTable { t: u8 },
     Insert { t: u8, g: u8, u: u32 },
+    /// as Insert, with a text value of `kib` KiB: rows of widely varying
+    /// size, so the database (and every checkpoint artifact, which embeds a
+    /// snapshot of it) can outgrow a configured artifact size limit
+    InsertWide { t: u8, g: u8, u: u32, kib: u16 },
     Update { t: u8, g: u8, u: u32 },
     Delete { t: u8, g: u8 },
     // ---- graph ----
@@ -77,6 +83,19 @@ pub struct Case {
     pub auto_checkpoint: bool,
     /// final sweep over every retained checkpoint: 0 none, 1 oldest first, 2 newest first
     pub sweep: u8,
+    /// BlobConfig::max_artifact_size of the blob store that holds the
+    /// checkpoint artifacts (None = unlimited, the default): a CHECKPOINT whose
+    /// artifact is larger is refused by the blob store
+    #[serde(default)]
+    pub blob_max_artifact: Option<usize>,
+    /// BlobConfig::chunk_size (None = the default, 1 MiB): artifacts are cut
+    /// into content-addressed, reference-counted chunks of this size
+    #[serde(default)]
+    pub blob_chunk_size: Option<usize>,
+    /// QueryRouter::init_cache: results of SELECT / SIMILAR / NEIGHBORS
+    /// statements are served from the router's cache when it has them
+    #[serde(default)]
+    pub query_cache: bool,
     pub steps: Vec<Step>,
 }
 
@@ -103,6 +122,8 @@ fn err_variant(e: &RouterError) -> String {
 fn canon_rel(v: &RelValue) -> String {
     match v {
         RelValue::Float(f) => format!("f:{:016x}", f.to_bits()),
+        // wide text values (InsertWide) are compared by length and hash
+        RelValue::String(t) if t.len() > 64 => format!("String(len={},h={:016x})", t.len(), crate::rng::hash_str(t)),
         other => format!("{other:?}"),
     }
 }
@@ -185,6 +206,17 @@ fn fmt_vec(v: &[f32]) -> String {
     format!("[{}]", parts.join(", "))
 }
 
+/// `Some(size)` when `msg` is the blob store's refusal of an artifact of
+/// `size` bytes under exactly the configured limit, and size > limit
+/// ("data size N exceeds max M", tensor_blob::BlobStore::put)
+fn refused_size(msg: &str, limit: usize) -> Option<usize> {
+    let rest = msg.split("data size ").nth(1)?;
+    let mut it = rest.split(" exceeds max ");
+    let size: usize = it.next()?.trim().parse().ok()?;
+    let max: usize = it.next()?.split(|c: char| !c.is_ascii_digit()).next()?.parse().ok()?;
+    (max == limit && size > limit).then_some(size)
+}
+
 struct Sys<'a> {
     ctx: &'a Arc<RunCtx>,
     case: &'a Case,
@@ -197,6 +229,9 @@ struct Sys<'a> {
     /// all checkpoints ever created, creation order
     cps: Vec<Cp>,
     rollbacks: u64,
+    /// CHECKPOINT statements / auto-checkpoints the blob store refused
+    /// (artifact larger than the configured max_artifact_size)
+    refused: u64,
     /// set once a backwards clock step happened: no verdicts from here on
     observation_mode: bool,
     observations: Vec<String>,
@@ -230,6 +265,26 @@ impl<'a> Sys<'a> {
             }
         }
         r
+    }
+
+    /// size of the blob artifact of checkpoint `id` (event log only, never judged)
+    fn artifact_size(&self, id: &str) -> usize {
+        let Some(blob) = self.router.blob() else { return 0 };
+        let blob = blob.clone();
+        let id = id.to_string();
+        self.router
+            .block_on(async move {
+                let b = blob.lock().await;
+                for a in b.by_tag("_system:checkpoint").await.unwrap_or_default() {
+                    if let Ok(m) = b.metadata(&a).await {
+                        if m.custom.get("checkpoint_id") == Some(&id) {
+                            return m.size;
+                        }
+                    }
+                }
+                0
+            })
+            .unwrap_or(0)
     }
 
     fn node_name(&self, id: u64) -> String {
@@ -314,6 +369,8 @@ impl<'a> Sys<'a> {
             self.ctx.event(&format!("observation (no verdict): {class} — {detail}"));
             Ok(())
         } else {
+            // a configuration the class depends on is part of the class
+            let class = if self.case.query_cache { format!("{class}+query-cache") } else { class };
             Err(Stop::Violation(Violation { class, detail }))
         }
     }
@@ -364,9 +421,19 @@ impl<'a> Sys<'a> {
         let shape = match (missing > 0, extra > 0) {
             (true, true) => "wrong-one-evicted",
             (true, false) => "retained-checkpoint-missing",
-            _ => "more-than-max-kept",
+            _ if got.len() > self.case.max_checkpoints => "more-than-max-kept",
+            // within the count, but a checkpoint no acknowledged statement created
+            _ => "unacknowledged-checkpoint-listed",
         };
-        let after_rb = if when.starts_with("after-rollback") { ":after-rollback" } else { "" };
+        let after_rb = if when.starts_with("after-rollback") {
+            ":after-rollback"
+        } else if when.starts_with("after-refused-checkpoint") {
+            ":after-refused-checkpoint"
+        } else if when.starts_with("after-destructive-statement") {
+            ":after-destructive-statement"
+        } else {
+            ""
+        };
         self.violation(
             format!("C08.retention:{shape}{after_rb}"),
             format!(
@@ -448,9 +515,35 @@ impl<'a> Sys<'a> {
         };
         let Some(id) = id else {
             self.ctx.event(&format!("{q} -> {}", canon(&r)));
+            // The configuration asked the blob store to refuse artifacts above a
+            // size: a CHECKPOINT refused for that reason (and only for that
+            // reason, with the configured limit, for a size above it) is an
+            // un-acknowledged statement, not a violation. No checkpoint was
+            // added, so "retention keeps the newest checkpoints up to the
+            // configured count, and every retained checkpoint can be rolled back
+            // to" speaks about the same checkpoints as before the statement:
+            // the listed set is compared at once, what each of them restores
+            // by the rollbacks that follow (steps and final sweep).
+            if let (Some(limit), Err(e)) = (self.case.blob_max_artifact, &r) {
+                if let Some(size) = refused_size(&e.to_string(), limit) {
+                    self.refused += 1;
+                    self.ctx.event(&format!("{q} refused by the blob store: artifact of {size} bytes, max_artifact_size {limit}"));
+                    self.ctx.probe("checkpoint_refused_by_artifact_size_limit");
+                    self.ctx.fp("refused");
+                    if self.cps.len() >= self.case.max_checkpoints {
+                        self.ctx.probe("checkpoint_refused_with_retention_full");
+                        self.ctx.fp("refused-full");
+                    }
+                    return self.check_retained_set(&format!("after-refused-checkpoint (would have been cp#{seq})"));
+                }
+            }
             return self.violation("C08.checkpoint:statement-failed".into(), format!("`{q}` returned {:?}", r.map(|_| ()).map_err(|e| e.to_string())));
         };
-        self.ctx.event(&format!("{q} -> created cp#{seq}"));
+        self.ctx.event(&format!("{q} -> created cp#{seq} ({} bytes)", self.artifact_size(&id)));
+        if self.refused > 0 {
+            // the database shrank (rollback, deletes) and fits again
+            self.ctx.probe("checkpoint_accepted_after_refusal");
+        }
         // name and tick as the system reports them
         let listed = self.list_checkpoints().unwrap_or_default();
         let info = listed.iter().find(|c| c.id == id);
@@ -551,6 +644,10 @@ impl<'a> Sys<'a> {
         self.check_restored(ci, &alt, how)?;
         self.nontrivial = true;
         self.ctx.probe("rollback_compared");
+        if self.refused > 0 {
+            // what a retained checkpoint restores is unchanged by a refused CHECKPOINT
+            self.ctx.probe("rollback_after_refused_checkpoint");
+        }
         self.check_retained_set(&format!("after-rollback to cp#{}", self.cps[ci].seq))
     }
 
@@ -570,7 +667,19 @@ impl<'a> Sys<'a> {
         let before = if destructive && self.case.auto_checkpoint { Some(self.dump()) } else { None };
         let r = self.step_inner(s);
         if let (Ok(()), Some(b)) = (&r, before) {
+            let known = self.cps.len();
             self.adopt_auto_checkpoints(&b)?;
+            if self.cps.len() == known {
+                // No auto-checkpoint appeared: the statement had nothing to
+                // destroy, or the blob store refused the artifact (the router
+                // treats auto-checkpoints as best effort and goes on). Either
+                // way no checkpoint was added, so the retained set is the one
+                // from before the statement.
+                if self.case.blob_max_artifact.is_some() {
+                    self.ctx.probe("destructive_statement_without_auto_checkpoint_under_size_limit");
+                }
+                self.check_retained_set("after-destructive-statement that added no auto-checkpoint")?;
+            }
         }
         r
     }
@@ -627,17 +736,25 @@ impl<'a> Sys<'a> {
                 self.ctx.event(&format!("{q} -> {}", canon(&r)));
                 Ok(())
             },
-            Step::Insert { t, g, u } => {
+            Step::Insert { .. } | Step::InsertWide { .. } => {
+                let (t, g, u, pad) = match s {
+                    Step::Insert { t, g, u } => (t, g, u, 0usize),
+                    Step::InsertWide { t, g, u, kib } => (t, g, u, usize::from(*kib).clamp(1, 512) * 1024),
+                    _ => unreachable!(),
+                };
                 let t = t % N_TABLES;
                 let g = g % N_GROUPS;
+                let val = format!("v{u}{}", "x".repeat(pad));
                 let pre = self.exec(&format!("SELECT * FROM t{t}"));
                 let usable = pre.is_ok();
                 let pre_rows = match &pre {
                     Ok(QueryResult::Rows(r)) => r.len(),
                     _ => 0,
                 };
-                let q = format!("INSERT INTO t{t} (k, g, v, f) VALUES ({u}, {g}, 'v{u}', {}.5)", u % 1000);
+                let q = format!("INSERT INTO t{t} (k, g, v, f) VALUES ({u}, {g}, '{val}', {}.5)", u % 1000);
                 let r = self.exec(&q);
+                // the statement as logged and reported carries the padding as a count
+                let q = format!("INSERT INTO t{t} (k, g, v, f) VALUES ({u}, {g}, 'v{u}'{}, {}.5)", if pad > 0 { format!("+{pad}x") } else { String::new() }, u % 1000);
                 self.ctx.event(&format!("{q} -> {}", canon(&r)));
                 if !self.keys.contains(&(t, *u)) && self.keys.len() < 24 {
                     self.keys.push((t, *u));
@@ -650,7 +767,7 @@ impl<'a> Sys<'a> {
                     let back = self.exec(&format!("SELECT * FROM t{t} WHERE k = {u}"));
                     let ok = match &back {
                         Ok(QueryResult::Rows(rows)) => rows.iter().any(|row| {
-                            row.get("v") == Some(&RelValue::String(format!("v{u}"))) && row.get("g") == Some(&RelValue::Int(i64::from(g)))
+                            row.get("v") == Some(&RelValue::String(val.clone())) && row.get("g") == Some(&RelValue::Int(i64::from(g)))
                         }),
                         _ => false,
                     };
@@ -890,7 +1007,17 @@ fn build_router(case: &Case) -> Result<QueryRouter, String> {
     let mut router = QueryRouter::new();
     // real BlobStore over the router's shared store; its GC task is never
     // started (start_blob is not called), so nothing is spawned on the runtime
-    router.init_blob_with_config(BlobConfig::default()).map_err(|e| format!("init_blob: {e}"))?;
+    let mut blob_cfg = BlobConfig::default();
+    if let Some(n) = case.blob_max_artifact {
+        blob_cfg = blob_cfg.with_max_artifact_size(n);
+    }
+    if let Some(n) = case.blob_chunk_size {
+        blob_cfg = blob_cfg.with_chunk_size(n.max(1));
+    }
+    router.init_blob_with_config(blob_cfg).map_err(|e| format!("init_blob: {e}"))?;
+    if case.query_cache {
+        router.init_cache();
+    }
     let cfg = CheckpointConfig::default()
         .with_max_checkpoints(case.max_checkpoints.max(1))
         .with_auto_checkpoint(case.auto_checkpoint)
@@ -999,11 +1126,42 @@ impl Scenario for C08 {
                 steps.push(Step::ClockBack { ms: rng.range(500, 5000) });
             }
         }
-        Case { max_checkpoints, auto_checkpoint, sweep: rng.below(3) as u8, steps }
+        let sweep = rng.below(3) as u8;
+        // Configuration of the blob store that holds the checkpoint artifacts
+        // (QueryRouter::init_blob_with_config). An artifact embeds a snapshot of
+        // the whole store, older artifacts included, so its size roughly
+        // doubles with every checkpoint (about 0.5 KiB, 2 KiB, 5 KiB, ... 100 KiB
+        // for this workload): a limit drawn log-uniformly from 512 B .. 128 KiB
+        // lets the first few CHECKPOINTs pass and refuses later ones, and a
+        // rollback to an early checkpoint makes the database fit again.
+        let blob_max_artifact = if rng.chance(2, 5) {
+            let exp = rng.range(9, 16); // 2^9 .. 2^17
+            Some((1usize << exp) + rng.below(1 << exp) as usize)
+        } else {
+            None
+        };
+        let blob_chunk_size = if rng.chance(1, 4) { Some(*rng.pick(&[512usize, 2048, 8192, 32768])) } else { None };
+        // rows of widely varying size: the database outgrows a limit at once
+        // instead of checkpoint by checkpoint
+        if rng.chance(1, 3) {
+            for s in &mut steps {
+                if let Step::Insert { t, g, u } = *s {
+                    if rng.chance(1, 2) {
+                        *s = Step::InsertWide { t, g, u, kib: rng.range(1, 16) as u16 };
+                    }
+                }
+            }
+        }
+        // the router's optional query cache (init_cache) is part of the case
+        let query_cache = GENERATE_QUERY_CACHE && rng.chance(1, 6);
+        Case { max_checkpoints, auto_checkpoint, sweep, blob_max_artifact, blob_chunk_size, query_cache, steps }
     }
 
     fn run(&self, case: &Case, ctx: &Arc<RunCtx>) -> RunOut {
         let mut out = RunOut::default();
+        if case.query_cache {
+            ctx.probe("router_query_cache_on");
+        }
         let router = match build_router(case) {
             Ok(r) => r,
             Err(e) => {
@@ -1013,6 +1171,10 @@ impl Scenario for C08 {
         };
         ctx.event(&format!("router up: max_checkpoints={} auto_checkpoint={}", case.max_checkpoints, case.auto_checkpoint));
         ctx.fp(&format!("max{}auto{}", case.max_checkpoints, case.auto_checkpoint));
+        if case.blob_max_artifact.is_some() || case.blob_chunk_size.is_some() {
+            ctx.event(&format!("blob store: max_artifact_size={:?} chunk_size={:?}", case.blob_max_artifact, case.blob_chunk_size));
+            ctx.fp(&format!("limit{}chunk{:?}", case.blob_max_artifact.map_or(0, |n| usize::BITS - n.leading_zeros()), case.blob_chunk_size));
+        }
         let mut sys = Sys {
             ctx,
             case,
@@ -1022,6 +1184,7 @@ impl Scenario for C08 {
             keys: Vec::new(),
             cps: Vec::new(),
             rollbacks: 0,
+            refused: 0,
             observation_mode: false,
             observations: Vec::new(),
             nontrivial: false,
@@ -1035,6 +1198,7 @@ impl Scenario for C08 {
                 Step::Clock { ms } if *ms >= 1000 => "T",
                 Step::Clock { .. } => "t",
                 Step::ClockBack { .. } => "B",
+                Step::InsertWide { .. } => "W",
                 Step::Insert { .. } | Step::Update { .. } | Step::Delete { .. } | Step::CreateTable { .. } | Step::DropTable { .. } | Step::CreateIndex { .. } => "r",
                 Step::NodeCreate { .. } | Step::NodeDelete { .. } | Step::EdgeCreate { .. } | Step::EdgeDelete { .. } => "g",
                 _ => "v",
@@ -1112,10 +1276,36 @@ impl Scenario for C08 {
             c.max_checkpoints -= 1;
             v.push(c);
         }
+        if case.blob_max_artifact.is_some() {
+            let mut c = case.clone();
+            c.blob_max_artifact = None;
+            v.push(c);
+        }
+        if case.blob_chunk_size.is_some() {
+            let mut c = case.clone();
+            c.blob_chunk_size = None;
+            v.push(c);
+        }
+        if case.query_cache {
+            let mut c = case.clone();
+            c.query_cache = false;
+            v.push(c);
+        }
+        if let Some(n) = case.blob_max_artifact {
+            // a rounder limit: the next power of two below
+            let p = 1usize << (usize::BITS - 1 - n.max(1).leading_zeros());
+            if p < n {
+                let mut c = case.clone();
+                c.blob_max_artifact = Some(p);
+                v.push(c);
+            }
+        }
         for (i, s) in case.steps.iter().enumerate() {
             let simpler = match s {
                 Step::Clock { ms } if *ms != 1000 && *ms > 1 => Some(Step::Clock { ms: if *ms > 1000 { 1000 } else { 1 } }),
                 Step::Checkpoint { named: false } => Some(Step::Checkpoint { named: true }),
+                Step::InsertWide { t, g, u, kib } if *kib > 1 => Some(Step::InsertWide { t: *t, g: *g, u: *u, kib: 1 }),
+                Step::InsertWide { t, g, u, .. } => Some(Step::Insert { t: *t, g: *g, u: *u }),
                 Step::Rollback { pick, by_name: true } => Some(Step::Rollback { pick: *pick, by_name: false }),
                 Step::Rollback { pick, by_name } if *pick > 0 => Some(Step::Rollback { pick: 0, by_name: *by_name }),
                 _ => None,
@@ -1139,16 +1329,20 @@ impl Scenario for C08 {
             "retention_evicts",
             "eviction_decided_inside_one_tick",
             "rollback_compared",
+            // a pass without these says nothing about refused CHECKPOINTs
+            "checkpoint_refused_by_artifact_size_limit",
+            "checkpoint_refused_with_retention_full",
+            "rollback_after_refused_checkpoint",
         ]
     }
 
     fn rule(&self) -> String {
-        "A case is max_checkpoints (1-4), auto_checkpoint on/off, a final-sweep order and a program of <=30 statements (CREATE TABLE/INDEX, INSERT, UPDATE, DELETE, DROP TABLE, NODE/EDGE CREATE/DELETE, EMBED STORE/DELETE, CHECKPOINT named or default-named, ROLLBACK TO by id or name of any checkpoint the creation-order model retains) with clock advances of 0 ms, 1-999 ms or 1-3.5 s between statements, executed as query text by one real QueryRouter with real BlobStore and CheckpointManager. Non-trivial: at least one ROLLBACK TO succeeded and the full observable dump was compared with the dump taken at that checkpoint. Distinct: hash of (max_checkpoints, auto flag, sequence of step classes, same-tick/different-tick/tie-eviction marks, rollback by id or name).".into()
+        "A case is max_checkpoints (1-4), auto_checkpoint on/off, the blob store configuration (max_artifact_size none or 512 B-128 KiB, chunk_size default or 512 B-32 KiB), a final-sweep order and a program of <=30 statements (CREATE TABLE/INDEX, INSERT of rows of 10 B-16 KiB, UPDATE, DELETE, DROP TABLE, NODE/EDGE CREATE/DELETE, EMBED STORE/DELETE, CHECKPOINT named or default-named, ROLLBACK TO by id or name of any checkpoint the creation-order model retains) with clock advances of 0 ms, 1-999 ms or 1-3.5 s between statements, executed as query text by one real QueryRouter with real BlobStore and CheckpointManager. Non-trivial: at least one ROLLBACK TO succeeded and the full observable dump was compared with the dump taken at that checkpoint. Distinct: hash of (max_checkpoints, auto flag, sequence of step classes, same-tick/different-tick/tie-eviction marks, rollback by id or name, blob limit magnitude and chunk size, refused checkpoints).".into()
     }
 
     fn components(&self) -> Value {
         json!({
-            "real": ["query_router::QueryRouter::execute_parsed (neumann_parser, relational/graph/vector/unified engines over one shared TensorStore)", "tensor_checkpoint::CheckpointManager, CheckpointStorage, RetentionManager", "tensor_blob::BlobStore (GC task not started)", "tensor_store snapshot_bytes / restore_from_bytes", "tokio runtime created by the router, used through block_on on the run thread only"],
+            "real": ["query_router::QueryRouter::execute_parsed (neumann_parser, relational/graph/vector/unified engines over one shared TensorStore)", "tensor_checkpoint::CheckpointManager, CheckpointStorage, RetentionManager", "tensor_blob::BlobStore built by QueryRouter::init_blob_with_config with the case's max_artifact_size and chunk_size (GC task not started)", "tensor_store snapshot_bytes / restore_from_bytes", "tokio runtime created by the router, used through block_on on the run thread only"],
             "simulated": ["SystemTime / Instant (libc clock_gettime interposed): created_at seconds and default checkpoint names follow the step list's clock advances", "getrandom (uuid checkpoint ids, HashMap order) seeded per case"],
             "stub": []
         })
@@ -1162,6 +1356,8 @@ impl Scenario for C08 {
             "a backwards step of the wall clock is outside the quantifier: runs containing one report labelled observations only".into(),
             "write statements are judged (must succeed and read back) only after the first rollback of the run, and only when reads immediately before show them to be valid".into(),
             "the blob garbage collector background task is not started".into(),
+            "with BlobConfig::max_artifact_size configured, a CHECKPOINT (or auto-checkpoint) that the blob store refuses with its size-limit error, naming the configured limit and a larger size, is an un-acknowledged statement: it adds no checkpoint and the retained set must be exactly the one before it; any other CHECKPOINT failure, and any failure without a configured limit, is a violation".into(),
+            "BlobConfig::max_artifacts is not part of the case: nothing in tensor_blob reads it; BlobConfig with chunk_size 0 is rejected at construction (no router to run)".into(),
         ]
     }
 
